@@ -212,8 +212,8 @@ def run(chk):
     chk.rule = ("instrumented executions of the real engine. asan build (debug assertions on): own corpus (variable-length values of 0/11/12/13/40/300/4096/100000 bytes, 0/1/7/300/2500 rows, "
                 "batch_size 1-2048, partitions 1-16, many-to-many hash/nested-loop joins, grouped/distinct/rollup aggregation, multi-key sorts, CTAS/self-insert, lists, string functions) on the "
                 "deterministic executor (4 schedule policies) and the production thread pool, Parquet (4 encodings x 4 codecs) and CSV reads under 1-byte / random / Pending read chunking, and "
-                "samples of the workloads of C04 C06 C07 C08 C10 C14 C17 C20 re-run on the asan build; tsan build: own corpus on the thread pool with 2-16 threads and injected pauses, every case "
-                "repeated; miri: tiny cases of the same corpus incl. the Parquet/CSV readers; memcheck: own corpus on the plain build. A report of any tool or a failed assertion inside /repo/crates "
+                "samples of the workloads of C04 C05 C06 C07 C08 C10 C13 C14 C17 C20 re-run on the asan build; tsan build: own corpus on the thread pool with 2-16 threads and injected pauses, every case "
+                "repeated; miri (thorough tier): tiny cases of the same corpus incl. the Parquet/CSV readers; memcheck: own corpus on the plain build. A report of any tool or a failed assertion inside /repo/crates "
                 "refutes. distinct non-trivial = distinct (build, case, statement) that completed under instrumentation")
     chk.assumptions = ["absence of reports covers only the executions produced; red-zone tools miss intra-object and far out-of-bounds accesses",
                        "LeakSanitizer is off (leaks are not part of the property); Miri runs with permissive provenance (int-to-pointer casts in the `sdd` dependency)",
@@ -238,8 +238,8 @@ def run(chk):
         if use("asan"):
             cases = own_cases(rng, thorough) + own_cases(rng, thorough, native=True)[: (60 if thorough else 12)] + file_cases(rng, d, thorough)
             vrun.run_sharded(cases, shards=16, wall_s=3000 if thorough else 1200)
-            for modname, cap in (("c04", 60), ("c06", 40), ("c07", 25), ("c08", 40), ("c10", 40), ("c14", 12), ("c17", 30), ("c20", 25)):
-                use("asan", max_cases=cap * (6 if thorough else 1), wall_s=1500 if thorough else 600)
+            for modname, cap in (("c04", 40), ("c06", 30), ("c07", 15), ("c08", 30), ("c10", 30), ("c14", 8), ("c17", 20), ("c20", 15), ("c13", 15), ("c05", 10)):
+                use("asan", max_cases=cap * (6 if thorough else 1), wall_s=1800 if thorough else 900)
                 try:
                     mod = importlib.import_module(f"vf.props.{modname}")
                     mod.run(Stub("quick", chk.seed))
